@@ -112,7 +112,7 @@ async fn exec_mixed(st: &State, c: &Value, argv: &Argv, rng: &mut impl Rng) -> (
     (exec(st, argv).await, "generic")
 }
 
-async fn run_async(run: usize, shards: usize, gen: &mut Gen, len: usize, two_key: bool, log: &mut Vec<Value>) {
+async fn run_async(run: usize, shards: usize, gen: &mut Gen, len: usize, two_key: bool, scripts: bool, log: &mut Vec<Value>) {
     let clock = HarnessTime(Arc::new(Mutex::new(1000)));
     let st: State = ShardedActorState::with_config_and_time_source(ShardConfig::with_shards(shards), clock.clone());
     let mut now: u64 = 0;
@@ -127,6 +127,10 @@ async fn run_async(run: usize, shards: usize, gen: &mut Gen, len: usize, two_key
         }
         let want_two = two_key && steps + 1 == len;
         let (c, argv) = loop {
+            if !want_two && (gen.rng.gen_range(0..8) == 0 || (scripts && gen.rng.gen_bool(0.6))) {
+                // script-cache commands (one cache per server) and the modelled extras
+                break if gen.rng.gen_bool(0.7) { gen.script_command() } else { gen.extra_command() };
+            }
             let (c, argv) = gen.command();
             let op = c["op"].as_str().unwrap_or("").to_string();
             let is_two_key = matches!(op.as_str(), "RENAME" | "LMOVE" | "MSETNX" | "MSET");
@@ -142,6 +146,39 @@ async fn run_async(run: usize, shards: usize, gen: &mut Gen, len: usize, two_key
                         "argv": argv.iter().map(|a| String::from_utf8_lossy(a).to_string()).collect::<Vec<_>>()}));
         steps += 1;
     }
+}
+
+/// Many shards (beyond any machine word of bits), a few dozen keys spread over them, and commands that name
+/// two or three keys at once - each key must be read and written on its own home shard.
+async fn run_wide(run: usize, shards: usize, gen: &mut Gen, len: usize, log: &mut Vec<Value>) {
+    let clock = HarnessTime(Arc::new(Mutex::new(1000)));
+    let st: State = ShardedActorState::with_config_and_time_source(ShardConfig::with_shards(shards), clock.clone());
+    let saved = std::mem::replace(&mut gen.keys, (0..40).map(|i| format!("user:{}:{}", i, ["name", "mail"][i % 2])).collect());
+    log.push(json!({"a": "reset", "run": run, "shards": shards}));
+    for _ in 0..len {
+        let n = gen.rng.gen_range(2..=3);
+        let ks: Vec<String> = (0..n).map(|_| gen.keys[gen.rng.gen_range(0..gen.keys.len())].clone()).collect();
+        let kbs: Vec<Vec<u8>> = ks.iter().map(|k| k.clone().into_bytes()).collect();
+        let (c, argv): (Value, Argv) = match gen.rng.gen_range(0..10) {
+            0..=3 => {
+                let vs: Vec<Vec<u8>> = (0..n).map(|i| format!("v{}{}", run, i).into_bytes()).collect();
+                let mut argv = vec![b("MSET")];
+                for i in 0..n { argv.push(kbs[i].clone()); argv.push(vs[i].clone()); }
+                (json!({"op": "MSET", "ks": ks, "vs": vs}), argv)
+            }
+            4..=6 => { let mut argv = vec![b("MGET")]; argv.extend(kbs.clone()); (json!({"op": "MGET", "ks": ks}), argv) }
+            7 => { let mut argv = vec![b("DEL")]; argv.extend(kbs.clone()); (json!({"op": "DEL", "ks": ks}), argv) }
+            8 => { let mut argv = vec![b("EXISTS")]; argv.extend(kbs.clone()); (json!({"op": "EXISTS", "ks": ks}), argv) }
+            _ => (json!({"op": "GET", "k": ks[0]}), vec![b("GET"), kbs[0].clone()]),
+        };
+        let r = exec(&st, &argv).await;
+        let ro = parse_argv(&argv).map(|cmd| cmd.is_read_only()).unwrap_or(false);
+        // the projection reads every key with its own single-key commands
+        let s = project(&st, 0).await;
+        log.push(json!({"a": "cmd", "run": run, "now": 0, "c": c, "path": "generic", "ro": ro, "r": rv_json(&r), "s": s,
+                        "argv": argv.iter().map(|a| String::from_utf8_lossy(a).to_string()).collect::<Vec<_>>()}));
+    }
+    gen.keys = saved;
 }
 
 /// TLC-generated scenario ([{"c": cmd} | {"tick": n}]) on an N-shard state.
@@ -206,9 +243,23 @@ pub fn main(args: &[String]) -> i32 {
         Some("record") => {
             let mut gen = Gen::new(a.u64("seed", 1), false);
             let two_key = a.get("twokey").is_some();
+            let scripts = a.get("scripts").is_some();   // runs dense in script-cache commands
             for i in 0..a.usize("n", 50) {
                 let mut log = Vec::new();
-                let r = catch(|| rt.block_on(run_async(i + 1, shards, &mut gen, a.usize("len", 30), two_key, &mut log)));
+                let r = catch(|| rt.block_on(run_async(i + 1, shards, &mut gen, a.usize("len", 30), two_key, scripts, &mut log)));
+                for ev in &log {
+                    out.emit(ev);
+                }
+                if let Err(p) = r {
+                    out.emit(&json!({"a": "cmd", "run": i + 1, "now": 0, "c": {"op": "OTHER"}, "argv": [], "ro": false, "panic": p, "r": {"t": "error", "b": [80], "a": []}, "s": []}));
+                }
+            }
+        }
+        Some("wide") => {
+            let mut gen = Gen::new(a.u64("seed", 1), false);
+            for i in 0..a.usize("n", 50) {
+                let mut log = Vec::new();
+                let r = catch(|| rt.block_on(run_wide(i + 1, shards, &mut gen, a.usize("len", 30), &mut log)));
                 for ev in &log {
                     out.emit(ev);
                 }
